@@ -8,24 +8,25 @@
     arraypath      a numeric path component that meets an array indexes it / names a field of
                    its sub-documents (the other half of this class — a path through an array was
                    missing unless every element had the field — was repaired by f19df5e)
-    scalararg      an operator that takes a fixed number (not one) of arguments, given a bare
-                   operand, iterates over it (`{$eq: "$a"}` compares two characters) / is rejected
-                   (the variadic operators and `$sum $avg $min $max` were repaired by f32e005,
-                   e7bd52b: a bare operand is a one-item argument list)
+    scalararg      `$strcasecmp` given a bare operand iterates over it (`{$strcasecmp: "ab"}`
+                   compares the characters `a` and `b`) / is rejected.  (The variadic operators
+                   and `$sum $avg $min $max` were repaired by f32e005, e7bd52b; the operators of
+                   a fixed arity — comparisons, `$subtract … $log`, `$in $split $arrayElemAt
+                   $cond $ifNull $setEquals` — reject a wrong number of arguments, a bare operand
+                   counting as one, since d10f41c.)
     boolnum        `$eq $ne $in` and array comparison identify true/false with 1/0 (Python ==)
     docorder       documents equal up to key order compare equal (Python ==)
     andstrict      `$and` parses every operand: one that raises after the first false operand
                    makes the `$and` raise              / evaluation stops at the first false
                    (kept: C20 relies on an unsupported operator in that position raising)
-    accbaremissing `{$sum: "$zz"}` (also `$avg $min $max`) with the one bare operand missing makes
-                   the computed field missing / is 0 for `$sum`, null for the others
   Repaired in the library (no longer classes; their witnesses are run as ordinary cases):
     exprtruth, exprmissing, strcasecmp, numtype, adddate, concatstr, nullarg, condkeys, undefvar,
     filtertruth, mapmissing, missingcmp, minmaxtypes, sumbool; arrayliteral (fce7e55, 9ff1475: an
     array in expression position evaluates its items, `{$not: [x]}` takes `x`), boolarith
     (10aa9e1: booleans are rejected in arithmetic and as indexes), letmissing (9957044: a `$let`
     variable bound to a missing value is missing where it is used), laxargs (442ff51, b53c397:
-    `$ifNull` arity, extra fields, variable names).
+    `$ifNull` arity, extra fields, variable names), accbaremissing (50b60be: `{$sum: "$zz"}` is 0,
+    `$avg $min $max` of a missing bare operand null).
   Scope limits: specraises (the rules reject the expression: no value to compare),
     specunmodelled (no oracle), deepcmp (comparison of documents, nested arrays, ObjectIds, aware
     dates), dupkeys, tzform (the `{date:, timezone:}` argument form of the date operators),
@@ -258,12 +259,12 @@ mutual
         (match sEval root env (.doc gs) with
          | .ok (some (.arr xs)) => strictReasons k (xs.map some)
          | .ok (some _) => []                     -- the one value the operator ranges over
-         | .ok none => ["accbaremissing"]
+         | .ok none => []                         -- nothing to range over: 0 / null
          | .error _ => [])
       else if strictOps.contains k then
         unproved k ++ (if hasTzKeys (.doc gs) then ["tzform"] else []) ++
         okReasons (sEval root env (.doc gs)) ++ rExpr root env (.doc gs) ++
-        (if bareOk k then [] else ["scalararg"]) ++
+        (if k = "$strcasecmp" then ["scalararg"] else []) ++
         (match sEval root env (.doc gs) with
          | .ok v => strictReasons k [v]
          | .error _ => [])
@@ -277,11 +278,11 @@ mutual
         (match sEval root env v with
          | .ok (some (.arr xs)) => strictReasons k (xs.map some)
          | .ok (some _) => []                     -- the one value the operator ranges over
-         | .ok none => ["accbaremissing"]
+         | .ok none => []                         -- nothing to range over: 0 / null
          | .error _ => [])
       else if strictOps.contains k then
         unproved k ++ okReasons (sEval root env v) ++ rExpr root env v ++
-        (if bareOk k then [] else ["scalararg"]) ++
+        (if k = "$strcasecmp" then ["scalararg"] else []) ++
         (match sEval root env v with
          | .ok r => strictReasons k [r]
          | .error _ => [])
